@@ -735,6 +735,15 @@ def directed(T, I, ctx):
                                          "advance 27000"]
         b += relsup_first
         out.append(mk(b, "directed held-input-then-flow-def", 2, name))
+    # 5. the event loop manager attached again and again, while the probe that hands it out answers and while it
+    #    does not (frozen, as an application does around the allocation of a worker): a pipe that is not given
+    #    a manager must end up without one - it released the one it had
+    b = base + setup_cmds(T, ctx) + ["out %s s0" % outp]
+    for n, _ in pipes:
+        b += ["attach %s upump" % n, "freeze %s" % n, "attach %s upump" % n, "loop", "thaw %s" % n, "attach %s upump" % n,
+              "freeze %s" % n, "attach %s upump" % n, "attach %s upump" % n]
+    b += relsub_first + ["loop"]
+    out.append(mk(b, "directed attach-while-frozen", 0, name))
     return out
 
 
